@@ -9,7 +9,6 @@ NOTES = ('exit 0 = all obligations discharged; exit 1 = a named obligation got a
          'exit 2 = undecided (anchor lost, unsupported construct, timeout, vacuity guard) and never a violation.')
 NOT_APPLICABLE = {
     'C01': 'bounded-liveness over whole histories of Layout::tick/do_action + Kanata; contracts state single calls and neither installed verifier takes those functions (DESIGN 2, 4)',
-    'C04': 'trace equivalence with a layered-keymap model; the resolving functions are iterator chains on a Layout instance: Verus rejects them, Kani needs 4 min..OOM for the smallest (DESIGN 2)',
     'C07': 'relational (two executions) over every prefix, gap and continuation; sufficiency of the 20-way idle conjunction is exactly that relation',
     'C12': 'acceptance loop is parser code over patricia_tree, run-time logic is Kanata state; a lemma about prefix-freedom would be a proof about a model',
     'C13': 'one FxHashMap::get makes update_keys intractable for CBMC even with a concrete key; the filter closure mutates a captured counter (Verus rejects)',
